@@ -377,9 +377,9 @@ func genQOps(rc *RunCtx, c QCfg) []Op {
 
 func genSizeClass(r *PRNG, prop string) int {
 	if prop == "C07" {
-		return r.Pick(0, 1, 2, 3, 4, 4, 4)
+		return r.Pick(0, 1, 2, 3, 4, 4, 4, 5)
 	}
-	return r.Pick(0, 0, 0, 1, 1, 2, 3, 4)
+	return r.Pick(0, 0, 0, 1, 1, 2, 3, 4, 5)
 }
 
 func genSub(r *PRNG, c QCfg, prop string) Op {
